@@ -111,3 +111,31 @@ type HWorker struct {
 	BossID uint
 	Boss   *HBoss
 }
+
+// A has-many whose children keep a back-reference to their parent (C13: the
+// children are reached twice while the graph is saved, their hooks fire once).
+type HOrder struct {
+	ID    uint
+	Name  string
+	Items []*HItem `gorm:"foreignKey:OrderID"`
+}
+
+type HItem struct {
+	ID      uint
+	Name    string
+	OrderID uint
+	Order   *HOrder `gorm:"foreignKey:OrderID"`
+}
+
+func (i *HItem) BeforeSave(tx *gorm.DB) error {
+	return hookEvent(tx, "Item.BeforeSave", &HRec{Name: i.Name})
+}
+func (i *HItem) BeforeCreate(tx *gorm.DB) error {
+	return hookEvent(tx, "Item.BeforeCreate", &HRec{Name: i.Name})
+}
+func (i *HItem) AfterCreate(tx *gorm.DB) error {
+	return hookEvent(tx, "Item.AfterCreate", &HRec{Name: i.Name})
+}
+func (i *HItem) AfterSave(tx *gorm.DB) error {
+	return hookEvent(tx, "Item.AfterSave", &HRec{Name: i.Name})
+}
